@@ -11,6 +11,7 @@ CONSTANTS
   PreSig = FALSE
   MaxFail = 0
   EnvMode = "async"
+  SignalInside = FALSE
   ReleaseAt = 0
   DoneAtStart = FALSE
   RevIncoming = FALSE
